@@ -108,18 +108,92 @@ Proof.
   destruct (names s p) as [[i| |t]|]; try discriminate; eauto. congruence.
 Qed.
 
-Lemma c18_no_overwrite sl src tgt rn now s : names s (norm tgt) <> None ->
-  forall o i, let r := run o i (prog_of sl (FMove src tgt rn now)) s in ofs r = s /\ ores r = IErr /\ owarn r = 0%nat.
+(* the lock probe never changes the state, whatever its calls answer (no assumption on the file) *)
+Lemma safe_prelude_any (P : fs -> Prop) (Q : fs -> io -> nat -> nat -> Prop) sl a k s w nf :
+  P s -> (forall nf', Q s IErr w nf') -> (forall nf', safe P Q k s w nf') -> safe P Q (lock_prelude sl a k) s w nf.
 Proof.
-  intros Hn o i.
-  assert (He : lexists s (norm tgt) = true) by (unfold lexists; destruct (names s (norm tgt)); congruence).
-  assert (Hcopy : refuses (move_copy src tgt now) s).
-  { intros o' i' w nf. unfold move_copy. cbn [run_acc]. cbn [fault_for is_query do_call]. unfold nat_call. cbn [ncall nat_ncall fst snd].
-    rewrite He. cbn [run_acc ofs ores owarn]. auto. }
-  cbn [prog_of]. apply (refuses_prelude sl src _ s).
-  destruct rn; [|exact Hcopy].
-  intros o' i' w nf. unfold move_rename. cbn [run_acc]. cbn [fault_for is_query do_call]. unfold nat_call. cbn [ncall nat_ncall fst snd].
-  rewrite He. apply Hcopy.
+  intros HP HQ Hk. unfold lock_prelude. destruct sl; [|apply Hk].
+  assert (Hstep : forall c (kk : res -> prog io) nf0,
+             match c with OpenW _ | LockW _ | UnlockW _ => True | _ => False end ->
+             (forall r nf', safe P Q (kk r) s w nf') -> safe P Q (Do c kk) s w nf0).
+  { intros c kk nf0 Hc Hkk. cbn [safe]. split; [exact HP|]. split.
+    - rewrite mids_nocopy; [intros m []|]. intros x y z. destruct c; try contradiction; discriminate.
+    - intros f _. rewrite (do_call_stateless f c s); [apply Hkk|]. destruct c; try contradiction; exact I. }
+  apply Hstep; [exact I|]. intros [|e] nf1.
+  - apply Hstep; [exact I|]. intros [|e] nf2.
+    + apply Hstep; [exact I|]. intros _ nf3. apply Hk.
+    + destruct (unsupported e); [apply Hk|cbn [safe]; auto].
+  - destruct (unsupported e); [apply Hk|cbn [safe]; auto].
+Qed.
+
+(* programs that never log a warning *)
+Inductive nowarn {R} : prog R -> Prop :=
+| NW_Ret r : nowarn (Ret r)
+| NW_Do c k : (forall r, nowarn (k r)) -> nowarn (Do c k).
+Lemma nowarn_run {R} (p : prog R) : nowarn p -> forall o i s w nf, owarn (run_acc o i p s w nf) = w.
+Proof. induction 1 as [r|c k Hk IH]; intros o i s w nf; cbn [run_acc]; [reflexivity|apply IH]. Qed.
+Lemma nowarn_mk_up {R} (k : res -> prog R) pending : (forall r, nowarn (k r)) -> nowarn (mk_up pending k).
+Proof.
+  intros Hk. induction pending as [|d rest IH]; cbn [mk_up]; auto.
+  constructor. intros [|e]; auto. destruct e; auto. constructor. intros [|e']; auto.
+Qed.
+Lemma nowarn_mk_down {R} (k : res -> prog R) fuel : forall d pending, (forall r, nowarn (k r)) -> nowarn (mk_down fuel d pending k).
+Proof.
+  induction fuel as [|f IH]; intros d pending Hk; destruct d as [|c1 [|c2 d']]; cbn [mk_down];
+    try (apply nowarn_mk_up; auto);
+    (constructor; intros [|e]; [apply nowarn_mk_up; auto|]; destruct e; auto;
+     try (apply nowarn_mk_up; auto);
+     constructor; intros [|e']; auto; apply nowarn_mk_up; auto).
+Qed.
+Ltac nw := repeat first [ apply NW_Ret | apply NW_Do; intros [|?] | apply nowarn_mk_down; intros [|?] ].
+Lemma nowarn_move sl src tgt rn now : nowarn (prog_of sl (FMove src tgt rn now)).
+Proof.
+  assert (Hc : nowarn (move_copy src tgt now)) by (unfold move_copy, mkdirs_of, mkdirs; nw).
+  assert (Hb : nowarn (if rn then move_rename src tgt (fun r => match r with IOk => Ret IOk | IErr => move_copy src tgt now end)
+                       else move_copy src tgt now)).
+  { destruct rn; [|exact Hc]. unfold move_rename, mkdirs_of, mkdirs. nw; auto. all: cbn [ok_of]; auto; nw. }
+  cbn [prog_of]. unfold lock_prelude. destruct sl; [|exact Hb].
+  constructor. intros [|e].
+  - constructor. intros [|e]; [constructor; intros _; exact Hb|destruct (unsupported e); [exact Hb|constructor]].
+  - destruct (unsupported e); [exact Hb|constructor].
+Qed.
+
+(* Something exists at the target: whatever the oracle does, Move ends with Err and the only thing that can have happened
+   to the file system is that missing DIRECTORIES were created (mkdirs runs before the check since 730c76a): every name
+   and every inode that existed is unchanged, in the final state and in every state a crash can expose. *)
+Lemma c18_no_overwrite_safe sl src tgt rn now s : names s (norm tgt) <> None ->
+  safe (dirs_added s) (fun st r _ _ => dirs_added s st /\ r = IErr) (prog_of sl (FMove src tgt rn now)) s 0 0.
+Proof.
+  intros Hn.
+  set (P := dirs_added s). set (Q := fun (st : fs) (r : io) (_ _ : nat) => dirs_added s st /\ r = IErr).
+  assert (Hlex : forall st, dirs_added s st -> lexists st (norm tgt) = true).
+  { intros st Hd. unfold lexists. destruct (names s (norm tgt)) as [n|] eqn:E; [|congruence].
+    now rewrite (dirs_added_keeps _ _ _ _ Hd E). }
+  assert (Hcopy : forall st w nf, dirs_added s st -> safe P Q (move_copy src tgt now) st w nf).
+  { intros st w nf Hd. unfold move_copy. apply (mkdirs_of_safe P Q st).
+    - intros st' Hd'. eapply dirs_added_trans; eauto.
+    - intros st' r w' nf' Hd'. assert (Hd2 : dirs_added s st') by (eapply dirs_added_trans; eauto).
+      destruct r as [|e]; [|cbn [safe]; unfold Q; auto].
+      apply safe_Do_query_eval; [reflexivity|exact Hd2|].
+      rewrite lexists_eval_norm, (Hlex st' Hd2). cbn [safe]. unfold Q; auto.
+    - apply dirs_added_refl. }
+  cbn [prog_of]. apply safe_prelude_any; [apply dirs_added_refl|intros; split; [apply dirs_added_refl|reflexivity]|].
+  intros nf'. destruct rn; [|apply Hcopy, dirs_added_refl].
+  unfold move_rename. apply (mkdirs_of_safe P Q s); [intros st' Hd'; exact Hd'| |apply dirs_added_refl].
+  intros st r w' nf0 Hd. destruct r as [|e]; [|apply Hcopy; auto].
+  apply safe_Do_query_eval; [reflexivity|exact Hd|].
+  rewrite lexists_eval_norm, (Hlex st Hd). apply Hcopy; auto.
+Qed.
+
+Lemma c18_no_overwrite sl src tgt rn now s : names s (norm tgt) <> None ->
+  forall o i,
+    (forall st, In st (states o i (prog_of sl (FMove src tgt rn now)) s) -> dirs_added s st) /\
+    let r := run o i (prog_of sl (FMove src tgt rn now)) s in dirs_added s (ofs r) /\ ores r = IErr /\ owarn r = 0%nat.
+Proof.
+  intros Hn o i. pose proof (c18_no_overwrite_safe sl src tgt rn now s Hn) as Hs. split.
+  - intros st Hin. exact (safe_states _ _ _ _ Hs o i st Hin).
+  - pose proof (safe_final _ _ _ _ Hs o i) as [H1 H2]. cbn zeta. split; [exact H1|]. split; [exact H2|].
+    unfold run. apply nowarn_run, nowarn_move.
 Qed.
 
 Lemma c18_copy_then_delete sl src tgt rn now s o i st : pre (FMove src tgt rn now) s ->
